@@ -46,13 +46,18 @@ SPEC = dict(
         "QSslSocket::supportsSsl() is true in this environment: the localTls=false branch of the model is proved but not exercised on the implementation",
         "mechanism selection is abstracted to {PLAIN, SCRAM-SHA-1, HT-SHA-256-NONE, unsupported} (full ranking: C05); SM counters/acks: C09; framing: C03",
     ],
-    level_text="Theorem over ALL server scripts of any length (no hypothesis about the server; alphabet incl. foreign-namespace elements, <r/>, <a/>, white "
-               "space, half elements, error+close in one read, time `tick`, TLS close_notify without TCP close, the reconnect timer, connectToServer in ANY "
-               "state, a registration manager consuming the stream features): with TLS required nothing but stream open/starttls/stream close is ever written "
-               "to an unencrypted wire; only hypothesis: the application itself sends no request over an unencrypted link. Also: "
-               "connect_starts_from_an_unconnected_socket (6235115), registration_never_in_clear, no_keepalive_before_encryption, keepalive_only_in_session, "
-               "pre_tls_element_is_rejected, tls_unavailable_disconnects, starttls_failure_disconnects, failed_handshake_disconnects, "
-               "versionless_header_gives_up, iq_request_before_tls_is_rejected. Former leaks (e0bbad9, fa0779c, e3d3c0f, 6235115) are replayed first.",
+    level_text="14 theorems; no hypothesis about the server or the code. Under the APPLICATION-side hypothesis appWaits (the application itself calls "
+               "sendIq/sendIqRetry only while the link is not clear; nothing about connects), for ALL scripts of any length (alphabet incl. foreign-namespace "
+               "elements, <r/>, <a/>, white space, half elements, error+close in one read, time `tick`, TLS close_notify without TCP close, the reconnect "
+               "timer, connectToServer in ANY state, a registration manager consuming the features): with TLS required nothing but stream open/starttls/"
+               "stream close is ever written to an unencrypted wire (tls_required_no_secret_before_encrypted, no_secret_in_clear, "
+               "no_keepalive_before_encryption, registration_never_in_clear); app_send_leaks_exactly_on_a_clear_link proves appWaits necessary; "
+               "app_that_waits_for_session_is_safe (hypothesis appUsesSession) shows sending only while isConnected() satisfies it. No hypothesis: "
+               "keepalive_only_in_session, iq_request_before_tls_is_rejected; configuration premise useNonSasl: versionless_header_gives_up. Stated for the "
+               "situation they describe and under the application-side hypothesis pendingRetry = 0 (no request with a re-sending failure continuation outstanding; "
+               "needed only because these claims count log entries on a closed socket, not proved necessary): pre_tls_element_is_rejected, "
+               "tls_unavailable_disconnects, starttls_failure_disconnects, failed_handshake_disconnects, connect_starts_from_an_unconnected_socket (its last clause "
+               "also redirect = false, which holds between any two steps). Former leaks (e0bbad9, fa0779c, e3d3c0f, 6235115) are replayed first.",
     level_note="Also proved: an application that sends only while isConnected() (and connects only while disconnected) satisfies the scope "
                "hypothesis automatically - with TLS required isConnected() implies an encrypted link; and a request sent on a connected "
                "unencrypted link does go out in clear (the scope hypothesis cannot be dropped). Proved about the hand-written model; the model-to-code tie is differential (exhaustive to depth 3/4 over a reduced "
